@@ -324,15 +324,18 @@ def r4_torn_tail(chk, mapb, put):
                  "record survive behind the next (shorter) append and are parsed as a block header by the next scan")
         return
     f, t = cands[0]
-    # must not be restricted to a mode other than append
+    # must not be restricted to a mode other than append: with mode == "a" every mode condition on the way holds
+    from ..canon import path_conditions
+
+    conds = path_conditions(f.node, t)
     bad_mode = False
-    for g in ast.walk(f.node):
-        if isinstance(g, ast.If) and any(x is t for b in g.body for x in ast.walk(b)):
-            for c in ast.walk(g.test):
-                if isinstance(c, ast.Compare) and "self.mode" in norm(c) and isinstance(c.ops[0], ast.Eq):
-                    lits = [x.value for x in ast.walk(c) if isinstance(x, ast.Constant)]
-                    if "a" not in lits:
-                        bad_mode = True
+    for c in conds:
+        if isinstance(c, ast.Compare) and len(c.ops) == 1 and "self.mode" in norm(c):
+            lits = [x.value for x in ast.walk(c) if isinstance(x, ast.Constant)]
+            op = c.ops[0]
+            holds = {ast.Eq: lits == ["a"], ast.NotEq: "a" not in lits, ast.In: "a" in lits, ast.NotIn: "a" not in lits}.get(type(op))
+            if holds is False:
+                bad_mode = True
     chk.decide(not bad_mode, "C03.R4", key, f.where(t), f"`{short(t, 50)}` in {f.qualname}",
                "the torn tail is truncated only in a mode other than append")
     # the guard must be decidable while open() is still running: map_blocks is called before open() marks the handle as open
@@ -350,9 +353,8 @@ def r4_torn_tail(chk, mapb, put):
         return out
 
     deps = set()
-    for g in ast.walk(f.node):
-        if isinstance(g, ast.If) and any(x is t for b in g.body for x in ast.walk(b)):
-            deps |= closure(g.test, set())
+    for c in conds:
+        deps |= closure(c, set())
     if f.qualname.endswith("map_blocks"):
         opn = chk.prog.func(f"{UKV}:UKVFile.open")
         from ..cfg import CFG
